@@ -195,6 +195,24 @@ def walk(e):
                 st.append(c)
 
 
+def walk_own(e):
+    """nodes of CFG element e that are evaluated *at* e: sub-trees that are CFG elements themselves
+    (calls, arms of ?:, operands of && ||) are visited where they are elements, not here"""
+    if not isinstance(e, dict):
+        return
+    st = [e]
+    first = True
+    while st:
+        n = st.pop()
+        if not first and "sid" in n:
+            continue
+        first = False
+        yield n
+        for c in children(n):
+            if isinstance(c, dict):
+                st.append(c)
+
+
 def strip(e, lvalue_to_rvalue=True, all_casts=False):
     """skip value-preserving wrappers: parens are gone already; NoOp / LValueToRValue casts"""
     while isinstance(e, dict) and e.get("k") == "cast":
@@ -416,6 +434,9 @@ class Program:
             return []
         qn = fn.get("qn") or fn.get("n")
         cands = self.by_qn.get(qn, [])
+        if not cands and fn.get("dk") == "fn":
+            # C functions declared inside `namespace mpt { extern "C" ... }` are seen as mpt::name from C++
+            cands = [c for c in self.by_name.get(fn.get("n"), []) if not c.d.get("method") and "::" not in c.qn]
         if fn.get("static"):
             c2 = [c for c in cands if c.unit.path == f.unit.path or c.file == f.file]
             if c2:
